@@ -11,7 +11,7 @@ KEYS = ["A", "B", "KEY", "NAME", "STATUS", "my_key", "K1", "X_Y", "TYPE", "PATTE
         "a.b", "K-1", "Z9"]
 WORDS = ["x", "abc", "Hello", "DONE", "v1", "a_b", "A.B", "a-b", "path/to", "ok"]
 SPECIAL_STR = ["", " ", "two words", "three word value", "1", "42", "-7", "3.14", "1e5", "true", "false", "null", "vs",
-               "a:b", "a::b", "x,y", "[x]", "a]b", "//c", "a // b", "#tag", "§ref", "§1", "$VAR", "$1:name",
+               "a:b", "a::b", "x,y", "[x]", "a]b", "//c", "a // b", "#tag", "§ref", "§1", "$VAR", "$1:name", "$KEY::value", "$HOME:", "$a:", "$:", "$x:y:", "$",
                "A→B", "A→B→C", "P⊕Q", "L@R", "X⇌Y", "A∧B", "A∨B", "A⧺B",
                "NAME<q>", "NEVER<A,B>", "FOO<>", "ATHENA<wise_one>", "a\"b", "back\\slash", "nl\nline", "first line  \nsecond", "a \n b\n\nc ", "tab\tx",
                "\\n", "\\t", "trés", "é", "\U0001F600", "1.2.3", "1.0-beta", "2024-01-15", "100%", "60%_done",
@@ -216,7 +216,7 @@ class Gen:
         front = None
         if r.random() < 0.15:
             front = r.choice(["name: Agent (x)", "a: 1\nb: [2]", "tést: →", " ", ""]) if self.wild else \
-                r.choice(["name: Agent (x)", "a: 1\nb: [2]", "tést: →"])
+                r.choice(["name: Agent (x)", "a: 1\nb: [2]", "tést: →", "  a: 1\n  b: 2", "a: 1\n\n", "\na: 1", "a: 1  ", "k: |\n  line one\n   line two  "])
         secs = None
         if self.clean:
             secs = self._declutter([n for n in (self.node(0) for _ in range(r.randint(1, self.max_sibs + 2))) if n[0] != "c"])
